@@ -4,7 +4,7 @@
 # Stores the change under /verif/seeded/<seed-id>/ with meta.json. Evidence/replays of these runs go to /tmp/seedout.
 src="$1"; id="$2"; prop="$3"; needs="$4"; shift 4
 dst=/verif/seeded/$id
-mkdir -p $dst; rm -rf $dst/demo; cp "$src/patch.diff" $dst/patch.diff; cp -r "$src/demo" $dst/demo; [ -f "$src/notes.md" ] && cp "$src/notes.md" $dst/notes.md
+mkdir -p $dst; cp "$src/patch.diff" $dst/patch.diff.new && mv $dst/patch.diff.new $dst/patch.diff; if [ "$(readlink -f $src/demo)" != "$(readlink -f $dst/demo)" ]; then rm -rf $dst/demo; cp -rL "$src/demo" $dst/demo; fi; [ -f "$src/notes.md" ] && cp "$src/notes.md" $dst/notes.md
 find $dst/demo -type f \( -name 'moq' -o -name '*.test' -o -name 'faultexec' -o -size +500k \) -delete 2>/dev/null
 cd /repo || exit 2
 [ -z "$(git status --porcelain --untracked-files=no)" ] || { echo "/repo dirty"; exit 2; }
